@@ -530,7 +530,9 @@ func propC20(j *Job) {
 // message.  A writes n messages in separate packets; the first transmission of the first one is
 // lost, so the others wait in the reassembly queue and the retransmission makes all n readable
 // in one step.  Every reader gets its message.
-func readersGapScenario(a, b epCfg, nReaders int) *Scenario {
+// (skip: the lost first message is not repaired but abandoned - retransmission limit 0 - and
+// the messages queued behind it are released by the skip report instead)
+func readersGapScenario(a, b epCfg, nReaders int, skip ...bool) *Scenario {
 	return &Scenario{
 		Name:    "readers-gap",
 		Horizon: 120 * time.Second,
@@ -575,7 +577,12 @@ func readersGapScenario(a, b epCfg, nReaders int) *Scenario {
 				}))
 			}
 			m.S.WaitIdle()
-			for i := 0; i < nReaders; i++ {
+			nw := nReaders
+			if len(skip) > 0 && skip[0] {
+				sa.SetReliabilityParams(false, ReliabilityTypeRexmit, 0)
+				nw++
+			}
+			for i := 0; i < nw; i++ {
 				if _, err := sa.WriteSCTP(payload(1, i, 150+i), PayloadTypeWebRTCBinary); err != nil {
 					m.Failf("write", "write %d: %v", i, err)
 				}
